@@ -105,7 +105,7 @@ def sk(s, I):
 
 
 # ------------------------------------------------------------------------------------------------ programs
-SIMPLE = ['pass', '0', '1', '"doc"', 'None', 'x = 1', 'assert x', 'assert x, "m"', 'return', 'return None', 'return x', 'import a', 'import b, c as d', 'from m import p',
+SIMPLE = ['pass', '0', '1', '"doc"', 'None', 'x = 1', 'assert x', 'assert x, "m"', 'return', 'return None', 'return x', 'import a', 'import b, c as d', 'import a as e', 'import a.b', 'import a.b as f', 'from m import p', 'from m import p as q2',
           'from m import q as r', 'from n import s', 'from m import *', 'from . import t', 'from .m import u', 'print(x)', 'raise ValueError()', '...', 'break', 'continue', 'x: int = 1']
 TESTS = ['__debug__', '__debug__ is True', '__debug__ is not False', '__debug__ == True', 'x is True', 'x == True', 'x is not False', 'not __debug__', '__debug__ is False',
          '__debug__ is not True', '__debug__ == False', 'True is __debug__', 'x', '__debug__ is 1', '__debug__ < True', '__debug__ is True is True']
@@ -172,7 +172,9 @@ DIRECTED = [
     'if __debug__:\n    a()\nelse:\n    b()\n', 'if x is True:\n    a()\n', 'if x == True:\n    a()\n', 'def f():\n    if __debug__:\n        a()\n',
     'def f():\n    if __debug__ is True:\n        a()\n    else:\n        b()\n', 'def f():\n    return None\n', 'def f():\n    return\n    return\n', 'def f():\n    x = 1\n    return None\n',
     'def f():\n    pass\n', 'class A(object):\n    pass\n', 'try:\n    pass\nexcept E:\n    pass\nfinally:\n    pass\n', 'match v:\n    case 1:\n        pass\n',
-    'import a\nimport b\nfrom c import d\nfrom c import e\nfrom f import g\nfrom c import h\nimport i\n', 'from a import *\nfrom a import b\nfrom a import c\n',
+    'import a\nimport b\nfrom c import d\nfrom c import e\nfrom f import g\nfrom c import h\nimport i\n',
+    'import json\nimport json as j\nimport os.path as p\nimport os.path\nimport textwrap, textwrap as tw\nprint(json, j, p, os, tw)\n', 'from m import a\nfrom m import a as b\nfrom m import a\nimport m\nimport m\n',
+    'def f():\n    import json\n    import json as j\n    return json, j\nclass K:\n    import zlib\n    import zlib as z\n', 'from a import *\nfrom a import b\nfrom a import c\n',
     'from . import a\nfrom . import b\nfrom .. import c\nfrom .m import d\nfrom m import e\n', 'while x:\n    pass\nelse:\n    pass\n', 'for i in y:\n    assert i\n',
     'def f():\n    "doc"\n', '"""module doc"""\nx = 1\n', 'def f():\n    """doc"""\n    return 1\n', 'def f():\n    0\n', 'def f():\n    assert x\n    if __debug__:\n        y()\n',
     'def f():\n    lambda: None\n    return None\n', '"""doc"""\nprint(__doc__)\n', '"""doc"""\ndef f():\n    "fdoc"\n    return m.__doc__\n', '"""doc"""\ndef f():\n    "fdoc"\n    return 1\n', 'async def f():\n    return None\n', 'def f():\n    def g():\n        return None\n    return g\n',
